@@ -14,6 +14,7 @@ import (
 	"fmt"
 	"io"
 	"net"
+	"os"
 	"strconv"
 	"strings"
 	"time"
@@ -571,13 +572,28 @@ func parseErrKind(err error) string {
 		return "UNSUPPORTED"
 	case errors.Is(err, model.ErrUnrecognizedAddrType):
 		return "ADDRTYPE"
+	case errors.Is(err, errParsePanic):
+		return "PANIC"
 	}
 	return "OTHER"
 }
 
+var errParsePanic = errors.New("panic in parseSocks5UDPDatagram")
+
+// safeParse calls the real parser; a panic (e.g. an index out of range on a short packet) is an error kind of its
+// own, reported by the callers' oracles instead of killing the driver.
+func safeParse(pkt []byte) (a model.AddrSpec, h, p []byte, err error) {
+	defer func() {
+		if x := recover(); x != nil {
+			err = fmt.Errorf("%w: %v", errParsePanic, x)
+		}
+	}()
+	return socks5.VerifC18ParseSocks5UDPDatagram(pkt)
+}
+
 func headerParseCase(r *vh.Run, pkt []byte) (model.AddrSpec, []byte, []byte, error) {
 	in := append([]byte(nil), pkt...)
-	a, h, p, err := socks5.VerifC18ParseSocks5UDPDatagram(in)
+	a, h, p, err := safeParse(in)
 	impl := ""
 	if err != nil {
 		impl = "ERR " + parseErrKind(err)
@@ -585,6 +601,9 @@ func headerParseCase(r *vh.Run, pkt []byte) (model.AddrSpec, []byte, []byte, err
 		impl = fmt.Sprintf("OK %s %s %d %s %s", vh.Hex([]byte(a.FQDN)), vh.Hex(a.IP), a.Port, vh.Hex(h), render(p))
 	}
 	r.Case("H "+vh.Hex(pkt), impl)
+	if errors.Is(err, errParsePanic) {
+		r.Fail("header-parse-panic", err.Error(), map[string]interface{}{"pkt": vh.Hex(pkt)})
+	}
 	return a, h, p, err
 }
 
@@ -683,6 +702,30 @@ func headers(r *vh.Run) {
 	}
 	headerBuildCase(r, model.AddrSpec{Port: 80}, []byte{1})
 	headerBuildCase(r, model.AddrSpec{IP: net.IP{1, 2, 3}, Port: 80}, []byte{1})
+	// aliasing: two different datagrams parsed out of ONE reused buffer (as the relay loop does); what the first
+	// parse returned as Header must be a value, i.e. unchanged after the buffer is reused
+	buf := make([]byte, 1<<16)
+	for i := 0; i < n; i++ {
+		a1, a2 := randAddr(rng, i%4), randAddr(rng, rng.Intn(4))
+		p1, _ := socks5.VerifC18NewSocks5UDPDatagram(a1, markerHeavy(rng, rng.Intn(40)))
+		p2, _ := socks5.VerifC18NewSocks5UDPDatagram(a2, markerHeavy(rng, rng.Intn(40)))
+		k1 := copy(buf, p1)
+		_, h1, _, err1 := safeParse(buf[:k1])
+		snap := append([]byte(nil), h1...)
+		k2 := copy(buf, p2)
+		_, h2, _, err2 := safeParse(buf[:k2])
+		impl := "ERR"
+		if err1 == nil && err2 == nil {
+			impl = vh.Hex(h1) + " " + vh.Hex(h2) // h1 as it is AFTER the second parse
+		}
+		r.Case(fmt.Sprintf("A %s %s", vh.Hex(p1), vh.Hex(p2)), impl)
+		r.Count("header-aliasing")
+		r.Distinct(fmt.Sprintf("alias/%d/%d", len(snap), len(h2)))
+		if err1 == nil && !bytes.Equal(h1, snap) {
+			r.Fail("header-aliases-buffer", fmt.Sprintf("the Header returned by parseSocks5UDPDatagram changed from %s to %s when the caller's buffer was reused for the next datagram (the relay remembers it per destination for reply headers)", vh.Hex(snap), vh.Hex(h1)),
+				map[string]interface{}{"first": vh.Hex(p1), "second": vh.Hex(p2)})
+		}
+	}
 	// udpAddrToHeader
 	for i := 0; i < n; i++ {
 		a := randAddr(rng, i%3)
@@ -690,7 +733,7 @@ func headers(r *vh.Run) {
 		h := socks5.VerifC18UDPAddrToHeader(u)
 		r.Case(fmt.Sprintf("U %s %d", vh.Hex(a.IP), a.Port), vh.Hex(h))
 		r.Count("udp-addr-to-header")
-		pa, _, pp, err := socks5.VerifC18ParseSocks5UDPDatagram(append(append([]byte(nil), h...), 0x55))
+		pa, _, pp, err := safeParse(append(append([]byte(nil), h...), 0x55))
 		if err != nil || !pa.IP.Equal(a.IP) || pa.Port != a.Port || !bytes.Equal(pp, []byte{0x55}) {
 			r.Fail("reply-header-not-sender", fmt.Sprintf("udpAddrToHeader(%v) parses to %v err %v", u, pa, err), map[string]interface{}{"ip": vh.Hex(a.IP), "port": a.Port})
 		}
@@ -920,19 +963,28 @@ func relay(r *vh.Run) {
 		}
 		return buf[:n], from, true
 	}
-	// up: the client sends pkt (header for destination i + payload) through the tunnel
+	// lastHdr[i] = the header the client most recently used for destination i (what replies from i must carry);
+	// nil = never addressed (a reply then carries the sender's own address)
+	lastHdr := map[int][]byte{}
+	const attempts = 3
+	const wait = 6 * time.Second
+	// up: the client sends pkt (header for destination i + payload) through the tunnel.
+	// A datagram lost on the loopback path is re-sent (the relay's state after processing the same header twice
+	// is the same); only the successful attempt is recorded. Wrong content is never retried.
 	up := func(hdr []byte, payload []byte, i int, dns string) {
 		pkt := append(append([]byte(nil), hdr...), payload...)
-		caseParts = append(caseParts, fmt.Sprintf("up %s %s", vh.Hex(pkt), dns))
-		cliConn.SetWriteDeadline(time.Now().Add(3 * time.Second))
-		if _, err := cli.Write(pkt); err != nil {
-			implParts = append(implParts, "writefail")
-			return
-		}
+		step := fmt.Sprintf("up %s %s", vh.Hex(pkt), dns)
 		r.Count("relay-up")
 		if i < 0 {
+			caseParts = append(caseParts, step)
+			cliConn.SetWriteDeadline(time.Now().Add(wait))
+			if _, err := cli.Write(pkt); err != nil {
+				implParts = append(implParts, "writefail")
+				fail("relay-tunnel-write", "tunnel write failed: "+err.Error())
+				return
+			}
 			// expected to be dropped: nothing may arrive anywhere
-			time.Sleep(100 * time.Millisecond)
+			time.Sleep(150 * time.Millisecond)
 			for k := range dests {
 				if got, _, ok := recvAt(k, time.Millisecond); ok {
 					implParts = append(implParts, fmt.Sprintf("send %s %d %s", vh.Hex(lo), port(k), render(got)))
@@ -943,10 +995,27 @@ func relay(r *vh.Run) {
 			implParts = append(implParts, "drop")
 			return
 		}
-		got, from, ok := recvAt(i, 3*time.Second)
+		var got []byte
+		var from *net.UDPAddr
+		ok := false
+		for a := 0; a < attempts && !ok; a++ {
+			cliConn.SetWriteDeadline(time.Now().Add(wait))
+			if _, err := cli.Write(pkt); err != nil {
+				caseParts = append(caseParts, step)
+				implParts = append(implParts, "writefail")
+				fail("relay-tunnel-write", "tunnel write failed: "+err.Error())
+				return
+			}
+			got, from, ok = recvAt(i, wait)
+			if !ok {
+				r.Count("relay-loopback-retry")
+			}
+		}
+		caseParts = append(caseParts, step)
+		lastHdr[i] = append([]byte(nil), hdr...)
 		if !ok {
 			implParts = append(implParts, "lost")
-			fail("relay-not-delivered", fmt.Sprintf("datagram of %d bytes for destination %d did not arrive at the destination named in its header", len(payload), i))
+			fail("relay-not-delivered", fmt.Sprintf("datagram of %d bytes for destination %d did not arrive at the destination named in its header (%d attempts)", len(payload), i, attempts))
 			return
 		}
 		implParts = append(implParts, fmt.Sprintf("send %s %d %s", vh.Hex(lo), port(i), render(got)))
@@ -964,14 +1033,28 @@ func relay(r *vh.Run) {
 			}
 		}
 	}
-	// down: destination i sends payload to the relay; the client reads the reply from the tunnel
-	down := func(i int, payload []byte, wantHdr []byte) {
-		caseParts = append(caseParts, fmt.Sprintf("down %s %d %s", vh.Hex(lo), port(i), vh.Hex(payload)))
-		dests[i].WriteToUDP(payload, relayAddr)
-		buf := make([]byte, 1<<16)
-		cliConn.SetReadDeadline(time.Now().Add(3 * time.Second))
-		n, err := cli.Read(buf)
+	var v4 func(i int) []byte
+	// down: destination i sends payload to the relay; the client reads the reply from the tunnel.
+	// Oracle: the reply frame is EXACTLY (header the client last used for i, or i's own address) ++ payload.
+	down := func(i int, payload []byte) {
+		step := fmt.Sprintf("down %s %d %s", vh.Hex(lo), port(i), vh.Hex(payload))
 		r.Count("relay-down")
+		buf := make([]byte, 1<<16)
+		n := 0
+		var err error
+		for a := 0; a < attempts; a++ {
+			dests[i].WriteToUDP(payload, relayAddr)
+			cliConn.SetReadDeadline(time.Now().Add(wait))
+			n, err = cli.Read(buf)
+			if err == nil {
+				break
+			}
+			if ne, isNet := err.(net.Error); !(isNet && ne.Timeout()) && !errors.Is(err, os.ErrDeadlineExceeded) {
+				break // a framing error is not a lost loopback datagram: never retried
+			}
+			r.Count("relay-loopback-retry")
+		}
+		caseParts = append(caseParts, step)
 		if err != nil {
 			implParts = append(implParts, "lost")
 			fail("relay-reply-lost", fmt.Sprintf("reply of %d bytes from destination %d did not reach the client: %v", len(payload), i, err))
@@ -979,16 +1062,20 @@ func relay(r *vh.Run) {
 		}
 		pkt := buf[:n]
 		implParts = append(implParts, "client "+render(pkt))
-		a, _, pl, perr := socks5.VerifC18ParseSocks5UDPDatagram(append([]byte(nil), pkt...))
-		if perr != nil || !bytes.Equal(pl, payload) {
-			fail("relay-reply-changed", fmt.Sprintf("reply from destination %d: header unparsable (%v) or payload changed (%d -> %d bytes)", i, perr, len(payload), len(pl)))
-			return
+		want := lastHdr[i]
+		if want == nil {
+			want = v4(i)
 		}
-		if a.Port != port(i) || (a.FQDN == "" && !a.IP.Equal(lo)) || (a.FQDN != "" && resolver[a.FQDN] == nil) {
-			fail("reply-header-not-sender", fmt.Sprintf("reply from 127.0.0.1:%d carries address %v", port(i), a))
-		}
-		if wantHdr != nil && !bytes.HasPrefix(pkt, wantHdr) {
-			fail("reply-header-not-sender", fmt.Sprintf("reply from destination %d does not carry the header the client used for it", i))
+		if !bytes.Equal(pkt, append(append([]byte(nil), want...), payload...)) {
+			a, h, pl, perr := safeParse(append([]byte(nil), pkt...))
+			switch {
+			case perr != nil:
+				fail("reply-header-not-sender", fmt.Sprintf("reply from 127.0.0.1:%d: header does not parse (%v); frame starts %s, expected header %s", port(i), perr, vh.Hex(pkt[:minInt(len(pkt), 24)]), vh.Hex(want)))
+			case !bytes.Equal(h, want):
+				fail("reply-header-not-sender", fmt.Sprintf("reply from 127.0.0.1:%d carries header %s (address %v), expected %s", port(i), vh.Hex(h), a, vh.Hex(want)))
+			default:
+				fail("relay-reply-changed", fmt.Sprintf("reply from destination %d: payload changed (%d -> %d bytes)", i, len(payload), len(pl)))
+			}
 		}
 	}
 	hdr := func(a model.AddrSpec) []byte {
@@ -998,52 +1085,79 @@ func relay(r *vh.Run) {
 		}
 		return h
 	}
-	v4 := func(i int) []byte { return hdr(model.AddrSpec{IP: lo, Port: port(i)}) }
+	v4 = func(i int) []byte { return hdr(model.AddrSpec{IP: lo, Port: port(i)}) }
 	mapped := func(i int) []byte {
 		h := []byte{0, 0, 0, 4, 0, 0, 0, 0, 0, 0, 0, 0, 0, 0, 0xff, 0xff, 127, 0, 0, 1}
 		return append(h, byte(port(i)>>8), byte(port(i)))
 	}
 	dom := func(name string, i int) []byte { return hdr(model.AddrSpec{FQDN: name, Port: port(i)}) }
 
+	pick := func(i int, kind int) ([]byte, string) {
+		switch kind {
+		case 0:
+			return v4(i), "-"
+		case 1:
+			return mapped(i), "-"
+		}
+		return dom([]string{"one.test", "two.test"}[rng.Intn(2)], i), vh.Hex(lo)
+	}
 	// unsolicited sender first: its own address
-	down(3, []byte{0x00, 0xff}, v4(3))
-	// empty payloads, several destinations, three header kinds
+	down(3, []byte{0x00, 0xff})
+	// three destinations, three header kinds of DIFFERENT length (10 / 15 / 22 bytes), datagrams of different
+	// sizes: A, B, C are addressed first, THEN they reply, in several orders, with further sends in between.
+	// (A relay that remembers a view into its receive buffer instead of the header bytes answers with the
+	// header of whatever the client sent last.)
 	up(v4(0), nil, 0, "-")
-	down(0, nil, v4(0))
-	up(dom("one.test", 1), []byte{0xff, 0x00}, 1, vh.Hex(lo))
-	down(1, []byte{1, 2, 3}, dom("one.test", 1))
+	up(dom("one.test", 1), markerHeavy(rng, 700), 1, vh.Hex(lo))
 	up(mapped(2), markerHeavy(rng, 1500), 2, "-")
-	down(2, markerHeavy(rng, 1500), mapped(2))
-	// the same destination under another name: latest header wins
+	down(0, nil)
+	down(1, []byte{1, 2, 3})
+	down(2, markerHeavy(rng, 1500))
+	down(1, markerHeavy(rng, 300))
+	down(0, markerHeavy(rng, 9000))
+	up(mapped(2), []byte{7}, 2, "-")
+	down(0, []byte{0xff})
+	up(v4(0), markerHeavy(rng, 2000), 0, "-")
+	down(1, nil)
+	down(2, []byte{0})
+	up(dom("one.test", 1), nil, 1, vh.Hex(lo))
+	down(2, markerHeavy(rng, 40))
+	down(0, []byte{0})
+	down(3, nil) // still never addressed
+	// the same destination under another name / another kind: latest header wins
 	up(dom("two.test", 1), []byte{9}, 1, vh.Hex(lo))
-	down(1, []byte{}, dom("two.test", 1))
+	up(v4(0), []byte{1}, 0, "-")
+	down(1, []byte{})
 	up(v4(1), []byte{}, 1, "-")
-	down(1, []byte{0}, v4(1))
-	// name that does not resolve / zero-length name: dropped, the association goes on
+	up(mapped(0), []byte{2}, 0, "-")
+	down(1, []byte{0})
+	down(0, []byte{3})
+	// name that does not resolve / zero-length name: dropped, the association goes on, memo untouched
 	up(dom("nx.test", 0), []byte{5}, -1, "-")
 	up([]byte{0, 0, 0, 3, 0, byte(port(0) >> 8), byte(port(0))}, []byte{5}, -1, "-")
-	steps := 12
+	down(0, []byte{4})
+	down(2, []byte{5})
+	steps := 24
 	if r.Thorough() {
-		steps = 150
+		steps = 300
 	}
 	for s := 0; s < steps; s++ {
-		i := rng.Intn(3)
-		n := []int{0, 1, 2, 255, 256, 1500, 9000, 65000, rng.Intn(3000)}[rng.Intn(9)]
-		var h []byte
-		dns := "-"
-		switch rng.Intn(3) {
-		case 0:
-			h = v4(i)
-		case 1:
-			h = mapped(i)
-		default:
-			h = dom([]string{"one.test", "two.test"}[rng.Intn(2)], i)
-			dns = vh.Hex(lo)
-		}
-		up(h, markerHeavy(rng, n), i, dns)
-		r.Distinct(fmt.Sprintf("relay/%d/%d/%s", i, h[3], sizeClass(n)))
-		if rng.Bool() {
-			down(i, markerHeavy(rng, []int{0, 1, 1500, 9000, 65000, rng.Intn(3000)}[rng.Intn(6)]), h)
+		if rng.Intn(5) < 3 {
+			i := rng.Intn(3)
+			n := []int{0, 1, 2, 255, 256, 1500, 9000, 65000, rng.Intn(3000)}[rng.Intn(9)]
+			h, dns := pick(i, rng.Intn(3))
+			up(h, markerHeavy(rng, n), i, dns)
+			r.Distinct(fmt.Sprintf("relay/up/%d/%d/%s", i, h[3], sizeClass(n)))
+		} else {
+			// a reply from ANY destination, most of the time not the one addressed last
+			i := rng.Intn(4)
+			n := []int{0, 1, 1500, 9000, 65000, rng.Intn(3000)}[rng.Intn(6)]
+			down(i, markerHeavy(rng, n))
+			k := byte(0)
+			if lastHdr[i] != nil {
+				k = lastHdr[i][3]
+			}
+			r.Distinct(fmt.Sprintf("relay/down/%d/%d/%s", i, k, sizeClass(n)))
 		}
 	}
 	// a malformed header ends the association with an error (it is not skipped silently)
@@ -1061,7 +1175,7 @@ func relay(r *vh.Run) {
 		if err == nil {
 			fail("relay-bad-header-swallowed", "fragmented datagram: loop ended without error")
 		}
-	case <-time.After(3 * time.Second):
+	case <-time.After(wait):
 		implParts = append(implParts, "running")
 		fail("relay-bad-header-swallowed", "fragmented datagram did not end the association")
 	}
@@ -1070,9 +1184,16 @@ func relay(r *vh.Run) {
 	r.Case("R "+strings.Join(caseParts, " ; "), strings.Join(implParts, " ; "))
 }
 
+func minInt(a, b int) int {
+	if a < b {
+		return a
+	}
+	return b
+}
+
 func main() {
 	r := vh.Start("c18")
-	r.Rep.Rule = "frames: every special size {0,1,2,255,256,1500,65534,65535} alone and in sequences plus generated sequences, contents in six marker-heavy styles, each stream read through the real PacketOverStreamTunnel under five chunkers (one chunk, every field boundary -1/0/+1, single bytes, random cuts, small uniform); malformed streams (bad start, bad end, truncation at every position, length > buffer with a well-formed frame inside the skipped data) after 0/1/3 good frames; byte soup; writer limit; SOCKS5 UDP headers built and parsed for IPv4/IPv6/v4-mapped/domain (1..255-byte names), all 256 address types, every truncation; the API wrapper; one real association over loopback sockets with four destinations. Non-trivial class = (size class, chunking class) / (violation kind, chunking class, number of good frames) / (address kind, payload class)."
+	r.Rep.Rule = "frames: every special size {0,1,2,255,256,1500,65534,65535} alone and in sequences plus generated sequences, contents in six marker-heavy styles, each stream read through the real PacketOverStreamTunnel under five chunkers (one chunk, every field boundary -1/0/+1, single bytes, random cuts, small uniform); malformed streams (bad start, bad end, truncation at every position, length > buffer with a well-formed frame inside the skipped data) after 0/1/3 good frames; byte soup; writer limit; SOCKS5 UDP headers built and parsed for IPv4/IPv6/v4-mapped/domain (1..255-byte names), all 256 address types, every truncation; the API wrapper; parsing two datagrams out of one reused buffer (the first result must not change); one real association over loopback sockets with four destinations and three header kinds of different length, where destinations are addressed first and reply later in other orders with further sends in between (every reply frame must equal the header the client last used for that sender, or the sender's own address, ++ the exact payload). Non-trivial class = (size class, chunking class) / (violation kind, chunking class, number of good frames) / (address kind, payload class)."
 	wrapper(r)
 	frames(r)
 	headers(r)
